@@ -65,7 +65,7 @@ class C18(Property):
                                           tags={"role": "multi", "group": gid, "var": var, "val": val}))
                 # (3) an env-backed argument absent from the line with the variable set  ==  the same line with
                 #     `--name=value` added and the variable unset (single-valued contexts and repetitions alike)
-                absent = [x for x in envd if x["k"] == "arg" and x not in present and (x["n"]["long"] or len(x["n"]["short"][0].encode()) == 1)]
+                absent = [x for x in envd if x["k"] == "arg" and x not in present]
                 if absent:
                     x = rng.choice(absent)
                     var = x["n"]["env"][0].encode()
